@@ -76,6 +76,7 @@ type Ans struct {
 	Fr    int      `json:"fr"`     // framing: 0 content-length, 1 chunked, 2 close-delimited, 3 http/1.0, 4 h2-shaped, 5 chunked+trailer
 	Sp    int      `json:"sp"`     // Cache-Control spelling variant
 	Ccl   []string `json:"ccl"`    // Cache-Control field lines given verbatim (CcSyntax.tla)
+	VSp   int      `json:"vsp"`    // spelling of the Vary field: 0 one line, 1 one field line per name, 2 "*" as a member of a list (vs = 1), 3 upper-case names
 	DFmt  int      `json:"dfmt"`   // HTTP-date format of Date / Expires / Last-Modified: 0 IMF-fixdate, 1 RFC 850, 2 asctime; 3 with nodate: an unparsable Date instead of none
 	Upd   int      `json:"upd"`    // 304: 1 carries an updated X-Upd end-to-end field
 	Pragma int     `json:"pragma"`
